@@ -666,6 +666,20 @@ class SpecEval:
             sorts = [{'S': m.Str, 'I': m.Int, 'B': m.Bool}[c] for c in SPEC_UFS[name]]
             f = m.uf(name, *sorts)
             return f(*[self.eval_term(a, env) for a in args])
+        if name in self.ex.db.relations or name in self.ex.db.functions:
+            leaves = []
+            for a in args:
+                v = self.eval(a, env)
+                if isinstance(v, Val):
+                    if v.ptr is not None:
+                        leaves.append(self.term(v))
+                    else:
+                        leaves.extend(v.leaves)
+                else:
+                    leaves.append(v)
+            rs = m.Bool if name in self.ex.db.relations else {'Int': m.Int, 'Bool': m.Bool, 'Str': m.Str}[self.ex.db.functions[name]]
+            f = m.uf('rel_' + name, *([l.sort() for l in leaves] + [rs]))
+            return f(*leaves)
         if name == 'ssub':
             return m.ssub(self.eval_term(args[0], env), self.eval_term(args[1], env), self.eval_term(args[2], env))
         if name == 'slen':
